@@ -7,11 +7,13 @@ TRUSTED_BASE = ["Lean 4.33 kernel", "axioms: propext, Classical.choice, Quot.sou
 ASSUMPTIONS = ["lexical path resolution: no symbolic links inside the storage root (rocfl creates none)",
                "hashed layouts (0003/0004) and the staging area derive paths from hex digests only (C11)"]
 CORRESPONDENCE = "safeRel/notInsideObject/confined (lean/RocflModel/Script.lean) vs `rocfl commit` of new objects and the strace of every operation"
-BUDGET = {"quick": dict(histories=40, ops=12, seconds=150), "thorough": dict(histories=500, ops=24, seconds=1500)}
+BUDGET = {"quick": dict(histories=100, ops=14, seconds=150), "thorough": dict(histories=500, ops=24, seconds=1500)}
 RULE = ("histories of real CLI invocations with hostile object ids ('..', '/', absolute, ids that are prefixes of one another) under the flat-direct layout "
         "and hostile --object-root values without layout, in repositories already holding objects; every mutating system call judged against "
         "{storage root, staging root}; distinct non-trivial = distinct (operation, exit status, guard verdict)")
-IDS = ["a", "a/b", "../x", "a/../../y", "/abs/p", "b//c", "c/.", "obj", "obj/v1", "obj/v1/content/z", "deep/er/id", "deep", "d/", "..", "x/../../../z", "ok-id"]
+IDS = [["a", "a/b", "../x", "a/../../y", "ok-id"], ["/abs/p", "b//c", "c/.", "b", "c"], ["obj", "obj/v1", "obj/v1/content/z", "obj/extensions/e"],
+       ["obj", "obj/v1/content/a.txt/x", "obj/v1/content/d1", "obj/v2"], ["deep/er/id", "deep", "deep/er", "d/", ".."], ["x/../../../z", "x", "x/y", "ok-id"],
+       ["p", "p/v1/content", "p/v1/content/sub/q", "p/inventory.json"]]
 ROOTS = ["objects/a", "objects/a/b", "../out", "/abs/root", "o//p", "objects/./q", "objects", "x/../../y", "plain"]
 HISTORY_KW = dict(layouts=["0002-flat-direct-storage-layout", "0002-flat-direct-storage-layout", "none"], ids=IDS, hostile_roots=ROOTS,
                   weights=[30, 3, 3, 3, 3, 2, 1, 40, 4, 1])
